@@ -8,7 +8,7 @@ for d in seeded/${1:-*}/; do
   n=$(basename $d)
   prop=$(python3 -c "import json,sys; print(json.load(open('$d/meta.json'))['property'][:3])")
   if python3 -c "import json,sys; sys.exit(0 if json.load(open('$d/meta.json')).get('retired') else 1)"; then echo "seed=$n retired (harmless on the current tree)"; continue; fi
-  line=$(tools/seedtest2.sh $n $prop 2>&1 | head -1)
+  all=$(tools/seedtest2.sh $n $prop 2>&1); line=$(echo "$all" | head -1)
   echo "$line" | cut -c1-200
   echo "$line" | grep -q 'rc=1 ' || miss=$((miss+1))
 done
